@@ -33,6 +33,7 @@ CHECKS['C02'] = dict(
         U('inpkg', 'TestVerifC02_Witness', q(160000, 16), q(3200000, 16, cap=1500), pkg='algo'),
         U('inpkg', 'TestVerifC02_Long', q(3200, 16), q(32000, 16, cap=1500), pkg='algo'),
         U('inpkg', 'FuzzVerifC02_Witness', None, q(fuzz=120), pkg='algo'),
+        U('inpkg', 'TestVerifC02_WitnessInScope', q(32000, 16), q(640000, 16, cap=1500), pkg='src'),
         U('inpkg', 'TestVerifC02_WitnessAcrossCancelledSearches', q(640, 16, cap=900), q(12800, 16, cap=3000, race=True), pkg='src'),
     ])
 
@@ -143,7 +144,7 @@ CHECKS['C07'] = dict(
 CHECKS['C10'] = dict(
     title='Field expressions select exactly the documented fields',
     rule='lines over {a,b,e-acute,CJK,space,tab,comma,semicolon,colon,x,1} with leading/trailing/consecutive delimiters x AWK / literal (1-2 chars) / regex delimiters (incl. one matching the empty string); '
-         'exhaustive table of every range spelling with bounds in -4..4 x 0..5 fields; random range lists with bounds in -7..7; --nth matching with positions checked against the full line. '
+         'exhaustive table of every range spelling with bounds in -4..4 x 0..5 fields; random range lists with bounds in -7..7; --nth matching with positions checked against the full line; real fzf sessions in which the expression in effect is changed with change-nth / transform-nth and put back (match set against the model after every step). '
          'non-trivial = >=3 fields, a negative or out-of-range bound, or a multi-byte first character',
     assumptions=[
         'observed convention adopted by the model where the documentation is silent: a literal delimiter yields a final empty field when the line ends with it, a regex delimiter does not',
@@ -154,6 +155,7 @@ CHECKS['C10'] = dict(
         U('inpkg', 'TestVerifC10_Tokenize', q(160000, 16), q(3200000, 16, cap=1800), pkg='src'),
         U('inpkg', 'TestVerifC10_RangesRandom', q(80000, 16), q(1600000, 16, cap=1800), pkg='src'),
         U('inpkg', 'TestVerifC10_NthMatch', q(80000, 16), q(1600000, 16, cap=1800), pkg='src'),
+        U('proc', 'TestVerifC10_ProcChangeNth', q(320, 16, cap=900), q(6400, 16, cap=3000), needs_fzf=True),
         U('inpkg', 'FuzzVerifC10_Tokenize', None, q(fuzz=60), pkg='src'),
         U('inpkg', 'FuzzVerifC10_Ranges', None, q(fuzz=60), pkg='src'),
         U('inpkg', 'FuzzVerifC10_NthMatch', None, q(fuzz=60), pkg='src'),
@@ -173,6 +175,7 @@ CHECKS['C11'] = dict(
         U('inpkg', 'FuzzVerifC11_Bytes', None, q(fuzz=120), pkg='src'),
         U('inpkg', 'FuzzVerifC11_Grammar', None, q(fuzz=90), pkg='src'),
         U('proc', 'TestVerifC11_ProcColours', q(320, 16, cap=900), q(6400, 16, cap=3000), needs_fzf=True),
+        U('proc', 'TestVerifC11_ProcPrinted', q(320, 16, cap=900), q(6400, 16, cap=3000), needs_fzf=True),
         U('lib', 'TestVerifC11_LibPrinted', q(16000, 16), q(320000, 16, cap=1500)),
     ])
 
@@ -187,6 +190,7 @@ CHECKS['C12'] = dict(
         U('inpkg', 'TestVerifC12_PlaceholderFile', q(4800, 4), q(64000, 8), pkg='src'),
         U('inpkg', 'TestVerifC12_FishModel', q(20000, 2), q(400000, 4), pkg='src'),
         U('inpkg', 'TestVerifC12_TmuxRequote', q(3200, 16, cap=400), q(64000, 16, cap=1800), pkg='src'),
+        U('inpkg', 'TestVerifC12_TmuxRelaunch', q(1600, 16, cap=600), q(32000, 16, cap=1800), pkg='src'),
         U('inpkg', 'FuzzVerifC12_Tmux', None, q(fuzz=60), pkg='src'),
         U('proc', 'TestVerifC12_ProcPlusList', q(192, 16, cap=900), q(3200, 16, cap=3000), needs_fzf=True),
     ])
@@ -217,6 +221,7 @@ CHECKS['C17'] = dict(
         U('inpkg', 'TestVerifC17_LastWinsVocabulary', q(48000, 16), q(960000, 16, cap=1800), pkg='src'),
         U('inpkg', 'TestVerifC17_EnvPrecedence', q(8000, 8), q(160000, 16, cap=1800), pkg='src'),
         U('inpkg', 'TestVerifC17_SubParsers', q(64000, 16), q(1600000, 16, cap=1800), pkg='src'),
+        U('inpkg', 'TestVerifC17_AdaptiveHeightRule', q(32000, 16), q(640000, 16, cap=1800), pkg='src'),
         U('inpkg', 'FuzzVerifC17_Argv', None, q(fuzz=120), pkg='src'),
         U('inpkg', 'FuzzVerifC17_Bind', None, q(fuzz=90), pkg='src'),
         U('inpkg', 'FuzzVerifC17_SubParsers', None, q(fuzz=60), pkg='src'),
@@ -284,6 +289,7 @@ CHECKS['C13'] = dict(
         U('inpkg', 'TestVerifC13_FeedWhileSearching', q(3200, 16, cap=600), q(32000, 16, cap=2400, race=True), pkg='src'),
         U('inpkg', 'TestVerifC13_LateCacheWrites', q(3200, 16, cap=600), q(64000, 16, cap=2400), pkg='src'),
         U('proc', 'TestVerifC13_ProcTailStream', q(192, 16, cap=900), q(3200, 16, cap=3000), needs_fzf=True),
+        U('proc', 'TestVerifC13_ProcReplacedInput', q(192, 16, cap=900), q(3200, 16, cap=3000), needs_fzf=True),
         U('inpkg', 'TestVerifC13_EventBox', q(3200, 8), q(32000, 16, cap=1800, race=True), pkg='util'),
     ])
 
